@@ -27,4 +27,4 @@ def run(ctx):
          "the allocator's inode number and the directory slot of a new name are inputs the model validates, not predictions",
          "direct calls of the exported NFSPROC3_* methods (the XDR/RPC transport is covered by C16)",
          "disk large enough that space is never the limit (exhaustion is C09's subject)"],
-        pending=["removed_disappear / lookup_last_bound (need the unique-names invariant of reachable states)"])
+        pending=[])
